@@ -229,6 +229,10 @@ impl<const L: bool> EventSource for Probe<L> {
             res = Err(Box::new(Scripted("probe process_events")));
         } else if self.synth_tok == Some(token) {
             callback((self.synthetic.unwrap_or(0), true), &mut ());
+        } else if self.synthetic.map_or(false, |s| s >= 128 && self.toks.get((s - 128) as usize).copied().flatten() == Some(token)) && readiness.writable && !readiness.readable {
+            // the synthetic event carried on a sub-source's own token (told apart from that sub-source's real,
+            // readable events by its write-only readiness)
+            callback((self.synthetic.unwrap_or(0), true), &mut ());
         } else {
             for (i, sub) in self.subs.iter_mut().enumerate() {
                 if self.toks[i] == Some(token) {
@@ -389,7 +393,10 @@ impl<const L: bool> EventSource for Probe<L> {
         let ret = match (self.synthetic, self.synth_tok) {
             (Some(s), Some(t)) => {
                 self.sh.push(Ev::BeforeSleep { src: self.id, ret: Some(s), err: false });
-                Some((Readiness { readable: true, writable: false, error: false }, t))
+                match self.toks.get((s & 127) as usize).copied().flatten() {
+                    Some(sub_tok) if s >= 128 => Some((Readiness { readable: false, writable: true, error: false }, sub_tok)),
+                    _ => Some((Readiness { readable: true, writable: false, error: false }, t)),
+                }
             }
             _ => {
                 self.sh.push(Ev::BeforeSleep { src: self.id, ret: None, err: false });
